@@ -15,22 +15,76 @@ NS = "haystack::defs::namespace::Namespace::"
 
 
 def _family(prog, b):
-    out = [b]
-    st = [b.id]
-    while st:
-        x = st.pop()
-        for c in prog.closures_of.get(x, []):
-            out.append(prog.bodies[c])
-            st.append(c)
+    return [b] + [prog.bodies[c] for c in prog.closures_of.get(b.id, [])]
+
+
+OPTION_PAYLOAD = ("Option::is_some_and", "Option::map", "Option::and_then", "Option::map_or", "Option::map_or_else", "Option::filter", "Option::is_none_or", "Option::inspect",
+                  "Result::map", "Result::and_then", "Result::is_ok_and")
+ITER_ELEMENT = ("::filter_map", "::filter", "::map", "::any", "::all", "::for_each", "::find", "::try_for_each", "::find_map", "::flat_map", "::position", "::take_while", "::skip_while", "::inspect")
+
+
+def _closure_env(prog, parent, penv):
+    """{closure id: {"caps": [repr of captured operand, in the parent's terms], "param": repr the closure's first parameter stands for}}"""
+    out = {}
+    for bi in range(parent.n):
+        for st in parent.blocks[bi]["stmts"]:
+            if st["k"] == "assign" and st["rv"]["k"] == "agg" and st["rv"].get("ak") == "closure":
+                cid = st["rv"].get("closure")
+                caps = [_norm(repr(G.describe(parent, o)), penv) for o in st["rv"]["ops"]]
+                out[cid] = {"caps": caps, "param": None, "local": st["lhs"]["l"]}
+    # what the closure's parameter is: payload of an Option receiver, or an element of an iterator receiver
+    for bi, t in parent.calls():
+        nm = strip_generics(mir.callee_name(t) or "")
+        for a in t["args"][1:]:
+            d = G.describe(parent, a)
+            if d.kind == "agg" and d.v == "closure":
+                # find which closure: by the defining local of the operand
+                pl = mir.op_place(a)
+                for cid, e in out.items():
+                    if pl is not None and pl["l"] == e["local"] and not pl["p"]:
+                        recv = _norm(repr(G.describe(parent, t["args"][0])), penv)
+                        if nm.endswith(OPTION_PAYLOAD):
+                            e["param"] = recv + " as Some.0"
+                        elif nm.endswith(ITER_ELEMENT):
+                            e["param"] = "elem(" + recv + ")"
     return out
 
 
+def _norm(r, env):
+    """rewrite a repr of a closure body into its parent's terms: captured variables and the parameter"""
+    if not env:
+        return r
+    caps = env["caps"]
+
+    def cap(m):
+        k = int(m.group(1))
+        return caps[k] if k < len(caps) else m.group(0)
+
+    if env.get("param"):
+        r = re.sub(r"(?<![\w.])_2(?![\w])\**", "\x00P\x00", r)
+    r = re.sub(r"_1\*?\.(\d+)\**", cap, r)
+    if env.get("param"):
+        r = r.replace("\x00P\x00", env["param"])
+    return r
+
+
 def _calls(prog, b, with_closures=True):
-    """[(body, block, callee, [arg reprs])]"""
+    """[(body, block, callee, [arg reprs])] over the body and (recursively) its closures, with the closures' operands rewritten
+    into the terms of the enclosing function (captured variables by what was captured, the parameter by what it stands for)"""
     out = []
-    for x in (_family(prog, b) if with_closures else [b]):
+
+    def visit(x, env):
         for bi, t in x.calls():
-            out.append((x, bi, strip_generics(mir.callee_name(t) or ""), [repr(G.describe(x, a)) for a in t["args"]]))
+            out.append((x, bi, strip_generics(mir.callee_name(t) or ""), [_norm(repr(G.describe(x, a)), env) for a in t["args"]]))
+        if not with_closures:
+            return
+        cenv = _closure_env(prog, x, env)
+        for c in prog.closures_of.get(b.id, []):
+            if (prog.bodies[c].rec.get("parent") or b.id) != x.id:
+                continue
+            visit(prog.bodies[c], cenv.get(c) or {"caps": [], "param": None})
+
+    visit(b, None)
     return out
 
 
@@ -55,22 +109,28 @@ def check_fits(ctx, rep):
         return 0
     cs = _calls(prog, b)
     n += 1
-    get = _find(cs, "Namespace::get")
+    get = _find(cs, "Namespace::get") + _find(cs, "Namespace::get_by_name")
     inh = _find(cs, "Namespace::inheritance")
     con = [c for c in cs if c[2].endswith("::contains") or c[2].endswith("Iterator::any") or c[2].endswith("::any")]
+    payload_ok = len(con) == 1 and (re.search(r"as Some\.0$", con[0][3][1] or "") is not None) and ("Namespace::get(_1*, _3*)" in con[0][3][1] or re.fullmatch(r"_\d+ as Some\.0", con[0][3][1] or "") is not None)
     good = (len(get) == 1 and get[0][3] == ["_1*", "_3*"] and len(inh) == 1 and inh[0][3] == ["_1*", "_2*"] and len(con) == 1
-            and "Namespace::inheritance(_1*, _2*)" in con[0][3][0] and re.search(r"as Some\.0", con[0][3][1] or ""))
+            and "Namespace::inheritance(_1*, _2*)" in con[0][3][0] and payload_ok)
     if good:
         _ok(rep, "fits:base-in-inheritance-of-def", b.where(), "fits(def, base) = inheritance(def).contains(get(base)), false when base is undefined")
     else:
         _bad(rep, "fits:base-in-inheritance-of-def", b.where(), "fits is not `inheritance(def).contains(get(base_def))` with def / base_def in those positions (get%s inheritance%s contains%s): the subtype test runs the wrong way round or against the wrong set" % ([c[3] for c in get], [c[3] for c in inh], [c[3][:1] for c in con]))
-    # the false results: only when base is undefined
+    # the only decision is whether base_def exists: no other branch in fits or its closures (is_some_and / if let are the same thing)
     n += 1
-    sw = [bi for bi in range(b.n) if b.term(bi)["k"] == "switch"]
-    if len(sw) == 1 and "Namespace::get(_1*, _3*)" in repr(G.describe(b, b.term(sw[0])["op"])):
-        _ok(rep, "fits:single-branch", b.where(sw[0]), "the only branch is on whether base_def exists")
+    sw = []
+    for x in _family(prog, b):
+        for bi in range(x.n):
+            if x.term(bi)["k"] == "switch":
+                sw.append((x, bi, repr(G.describe(x, x.term(bi)["op"]))))
+    extra = [w for w in sw if "Namespace::get(_1*, _3*)" not in w[2]]
+    if not extra and len(sw) <= 1:
+        _ok(rep, "fits:single-branch", b.where(), "the only branch is on whether base_def exists")
     else:
-        _bad(rep, "fits:single-branch", b.where(), "fits has %d branches besides the existence test of base_def" % max(0, len(sw) - 1))
+        _bad(rep, "fits:single-branch", (extra[0][0].where(extra[0][1]) if extra else b.where()), "fits has %d branch(es) besides the existence test of base_def" % len(extra))
     for fn, sym in (("fits_marker", "marker"), ("fits_val", "val"), ("fits_choice", "choice"), ("fits_entity", "entity")):
         fb = prog.get(NS + fn)
         if fb is None:
@@ -252,15 +312,18 @@ def check_direct_edges(ctx, rep):
         cs = _calls(prog, b)
         gl = _find(cs, "HaystackDict>::get_list")
         get = _find(cs, "Namespace::get")
-        pu = _find(cs, "Vec::push")
-        owner_ok = len(gl) == 1 and gl[0][3][1] == "conststr:is" and re.search(r"as Some\.0$", gl[0][3][0]) is not None
-        lookups = [c for c in get if "as Symbol.0" in c[3][1]]
         own = [c for c in get if c[3] == ["_1*", "_2*"]]
-        good = owner_ok and len(own) >= 1 and len(lookups) == 1 and len(pu) == 1 and re.search(r"as Some\.0$", pu[0][3][1]) is not None
+        lookups = [c for c in get if c[3][0] == "_1*" and "as Symbol.0" in c[3][1]]
+        owner_ok = len(gl) == 1 and gl[0][3][1] == "conststr:is" and (re.search(r"as Some\.0$", gl[0][3][0]) is not None) and ("Namespace::get(_1*, _2*)" in gl[0][3][0] or re.fullmatch(r"_\d+ as Some\.0", gl[0][3][0]) is not None)
+        pu = [c for c in _find(cs, "Vec::push") if re.search(r"as Some\.0$", c[3][1])]
+        names = [c[2] for c in cs]
+        collected = any(nm.endswith("::filter_map") for nm in names) and any(nm.endswith("::collect") for nm in names)
+        cut = [nm.split("::")[-1] for nm in names if re.search(r"::(take|take_while|skip|skip_while|step_by|nth|filter|find|rev|dedup)$", nm)]
+        good = owner_ok and len(own) >= 1 and len(lookups) == 1 and (len(pu) == 1 or collected) and not cut
         if good:
             _ok(rep, "supertypes_of:defined-members-of-is", b.where(), "supertypes_of(s) = [get(x) for Symbol x in get(s).is if defined]")
         else:
-            _bad(rep, "supertypes_of:defined-members-of-is", b.where(), "supertypes_of does not collect get(x) for every symbol x of the def's own `is` list")
+            _bad(rep, "supertypes_of:defined-members-of-is", b.where(), "supertypes_of does not collect get(x) for every symbol x of the def's own `is` list (is-list of the def itself: %s, lookups of its symbols: %d, collected: %s, cutting adaptors: %s)" % (owner_ok, len(lookups), bool(pu) or collected, cut))
     return n
 
 
@@ -280,16 +343,25 @@ def check_reflect(ctx, rep):
         _bad(rep, "reflect:result", b.where(), "reflect returns %s, expected Reflection::make(subject, find_supertypes_from_defs(self, defs), self)" % ret[:140])
     n += 1
     keys = _find(cs, "BTreeMap::keys")
-    get = _find(cs, "Namespace::get")
     push = _find(cs, "Vec::push")
+    # the def of a tag: get(^key) or get_by_name(key) (which is get(^name), checked below); `key` is the loop's item
     key_item = None
-    for c in get:
+    lookups = []
+    for c in _find(cs, "Namespace::get"):
         m = re.search(r"Symbol as std::convert::From>::from\((.*)\)$", c[3][1])
         if m:
             key_item = m.group(1)
-    good = len(keys) == 1 and "_2*" in keys[0][3][0] and key_item is not None and len(push) == 1 and re.search(r"as Some\.0$", push[0][3][1]) is not None
+            lookups.append(c)
+    for c in _find(cs, "Namespace::get_by_name"):
+        key_item = c[3][1]
+        lookups.append(c)
+        gb = prog.get(NS + "get_by_name")
+        gcs = _calls(prog, gb) if gb is not None else []
+        if not any(x[2].endswith("BTreeMap::get") and "Symbol as std::convert::From>::from(_2" in x[3][1] for x in gcs):
+            key_item = None
+    good = len(keys) == 1 and "_2*" in keys[0][3][0] and key_item is not None and len(lookups) == 1 and len(push) == 1 and re.search(r"as Some\.0$", push[0][3][1]) is not None
     if good:
-        gs = [g for g in G.guards_at(push[0][0], push[0][1]) if "Namespace::get(" not in repr(g.a) and "Iterator>::next" not in repr(g.a)]
+        gs = [g for g in G.guards_at(push[0][0], push[0][1]) if "Namespace::get" not in repr(g.a) and "Iterator>::next" not in repr(g.a)]
         good = not gs
     if good:
         _ok(rep, "reflect:tag-defs", b.where(), "the def of every tag of the record that has one is taken, whatever the tag's value")
@@ -369,7 +441,8 @@ def check_reflection_fits(ctx, rep):
         fits = _find(cs, "Namespace::fits")
         gsym = _find(cs, "HaystackDict>::get_symbol")
         good = (len(anys) == 1 and not alls and ".defs" in anys[0][3][0] and len(fits) == 1 and len(gsym) == 1 and gsym[0][3][1] == "conststr:def"
-                and re.search(r"as Some\.0$", fits[0][3][1]) is not None and re.search(r"^_1\*?\.\d+\*+$|^_1\.1\*+$|base|^_1\*\.1", fits[0][3][2]) is not None)
+                and "elem(" in gsym[0][3][0] and ".defs" in gsym[0][3][0]
+                and fits[0][3][0] == "_1*.ns" and re.search(r"as Some\.0$", fits[0][3][1]) is not None and fits[0][3][2] == "_2*")
         if good:
             _ok(rep, "reflection-fits:any-def-fits-base", b.where(), "Reflection::fits(base) = ANY reflected def d with ns.fits(d.def, base)")
         else:
@@ -454,4 +527,11 @@ def check_full_scans(ctx, rep):
                     _bad(rep, "%s:full-scan" % fn, b.where(bad[0][0]), "a loop of %s can be left before its iterator is exhausted (edge bb%d -> bb%d): the remaining elements are never looked at" % (fn, bad[0][0], bad[0][1]))
                 else:
                     _ok(rep, key, b.where(h), "the loop is left only on exhaustion")
+        # the iterator-adaptor spelling of a scan: exhaustive by construction unless an adaptor cuts it short
+        for x, bi, nm, args in _calls(prog, b):
+            if re.search(r"::(collect|for_each|extend|fold|count|sum)$", nm) and not nm.endswith("Extend>::extend"):
+                n += 1
+            if re.search(r"Iterator(>|)::(take|take_while|skip|skip_while|step_by|nth|last)$", nm):
+                n += 1
+                _bad(rep, "%s:full-scan" % fn, x.where(bi), "%s walks a list through `%s`, which stops before the end: the remaining elements are never looked at" % (fn, nm.split("::")[-1]))
     return n
